@@ -9,6 +9,7 @@ mod codecs;
 mod cramfmt;
 mod dbgfmt;
 mod forkrun;
+mod minimal;
 mod mutate;
 mod probe;
 mod queries;
@@ -150,11 +151,21 @@ fn seeded_read(ctx: &Ctx, w: &World, m: u64) -> (usize, seeded::Mutated) {
     // small items more often than large ones (cost), every kind equally often
     let kinds: Vec<corpus::Kind> = {
         let mut k: Vec<corpus::Kind> = w.seeded_items.iter().map(|p| p.item.kind).collect();
+        k.sort();
         k.dedup();
         k
     };
     let kind = *rng.pick(&kinds);
-    let of_kind: Vec<usize> = w.seeded_items.iter().enumerate().filter(|(_, p)| p.item.kind == kind && !p.item.bytes.is_empty()).map(|(i, _)| i).collect();
+    // half of the time a minimal item of the kind (uniform), otherwise a corpus item (small ones more often)
+    let minimal: Vec<usize> =
+        w.seeded_items.iter().enumerate().filter(|(_, p)| p.item.kind == kind && !p.item.bytes.is_empty() && p.item.name.contains("/min-")).map(|(i, _)| i).collect();
+    if !minimal.is_empty() && rng.chance(1, 2) {
+        let pick = *rng.pick(&minimal);
+        let mu = seeded::mutate_item(&w.seeded_items[pick], &mut rng);
+        return (pick, mu);
+    }
+    let of_kind: Vec<usize> =
+        w.seeded_items.iter().enumerate().filter(|(_, p)| p.item.kind == kind && !p.item.bytes.is_empty() && !p.item.name.contains("/min-")).map(|(i, _)| i).collect();
     let weights: Vec<u64> = of_kind.iter().map(|&i| 1 + 200_000 / (w.seeded_items[i].item.bytes.len() as u64 + 1500)).collect();
     let total: u64 = weights.iter().sum();
     let mut x = rng.below(total.max(1));
@@ -445,6 +456,23 @@ fn main() {
         alloc::RUNAWAY_OLD.load(Relaxed) >> 20
     ));
     rep.assumptions.push("panics raised inside harness code by a value a noodles accessor returned (e.g. collect() on an iterator whose size_hint is absurd) are attributed to the accessor".into());
+    if ctx.param("mode") == Some("genfixtures") {
+        // writes the minimal CRAM fixtures (block order of the CRAM writer differs from process to process, so the
+        // deterministic part uses stored bytes); keeps a candidate only if it reads back to END
+        let dir = std::path::Path::new(ctx.param("dir").expect("dir="));
+        for (name, model) in minimal::cram_fixture_models() {
+            match minimal::cram_fresh(&model) {
+                Some(bytes) => {
+                    let side = corpus::Side { reference_fasta: Some(b">s\nACGTACGTAC\n".to_vec()), ..Default::default() };
+                    let ok = corpus::Kind::Cram.variants().iter().all(|v| matches!(probe::read_probe(corpus::Kind::Cram, *v, &bytes, &side), Ok(oc) if oc == forkrun::OC_END));
+                    println!("{name}: {} bytes, reads to END: {ok}", bytes.len());
+                    std::fs::write(dir.join(format!("{name}.cram")), if ok { &bytes[..] } else { &[][..] }).unwrap();
+                }
+                None => println!("{name}: the CRAM writer rejected the model"),
+            }
+        }
+        std::process::exit(0);
+    }
     let w = World::build(&ctx);
     if ctx.param("mode") == Some("list") {
         w.list();
